@@ -589,14 +589,26 @@ def oracle(case, obs):
     closed = set()           # handles that were closed (C07) / whose scope ended (C08)
     dead = False
     seen_kinds, seen_ctxs = [], []
+    parents = []      # parents[h] = the handle h was obtained from (None = the underlying iterator itself)
+
+    def under_closed(h):
+        """h iterates through a handle that is closed (its own wrapper is alive, but it pulls through a dead one)"""
+        p = parents[h] if h < len(parents) else None
+        while p is not None:
+            if p in closed:
+                return True
+            p = parents[p] if p < len(parents) else None
+        return False
     allrecs = list(zip(case["ops"], obs["ops"])) + [(["next", None], r) for r in obs["drain"]]
     for i, (op, rec) in enumerate(allrecs):
         tag, seg, out = op[0], rec["seg"], rec["out"]
         if tag == "borrow" and isinstance(out, list) and out[0] == "handle":
             seen_kinds.append("borrowed")
+            parents.append(op[1])
         if tag == "enter" and isinstance(out, list) and out[0] == "entered":
             if out[2] is not None:
                 seen_kinds.append("scoped")
+                parents.append(op[1])
             seen_ctxs.append({"target": op[1], "own": out[2]})
         owner_close = (tag == "close" and op[1] is None) or (
             tag == "exit" and op[1] < len(seen_ctxs) and seen_ctxs[op[1]]["target"] is None
@@ -626,6 +638,10 @@ def oracle(case, obs):
                 issues.append(Issue("oracle", {"op_index": i, "op": op, "out": out, "seg": seg}, "item-lost-or-duplicated"))
         # -- a closed handle yields nothing and does not advance the underlying iterator
         tgt = op[1] if tag in ("next", "ncancel", "send", "tool") else None
+        if tgt is not None and tgt not in closed and tag in ("next", "ncancel", "tool") and under_closed(tgt):
+            # a handle obtained from a handle that has been closed in the meantime pulls through the dead one
+            if seg:
+                issues.append(Issue("oracle", {"op_index": i, "op": op, "seg": seg}, "handle-of-closed-handle-advances-underlying"))
         if tgt is not None and tgt in closed:
             if seg:
                 issues.append(Issue("oracle", {"op_index": i, "op": op, "seg": seg}, "closed-handle-advances-underlying"))
